@@ -26,7 +26,7 @@ var orderReasons = map[string]struct{ reason, effects string }{
 		"calls=delete"},
 	"builder.findLeader:range(scc)#2": {
 		"for every start vertex the candidate set is intersected with every cycle (deletes only: commutative); the early exits return constants and their condition (empty candidate set / error) is monotone under deletes, so the result is the same for every visiting order",
-		"calls=FindCyclesInSCC,delete,fmt.Errorf"},
+		"calls=FindCyclesInSCC,delete,fmt.Errorf exits=return"},
 	"builder.ComputeLeftRecursives:range(graph)#1": {
 		"collects the vertex list passed to StronglyConnectedComponents: the resulting partition into SCCs is independent of vertex order (Tarjan); only the order of the returned list varies, and its consumer loop treats every SCC independently (constant flag stores, leader chosen by minimum)",
 		"writes=<[]string>"},
@@ -108,7 +108,57 @@ func mapRanges(g *load.G, suffixes []string, skipFile func(string) bool) []range
 // assignment targets whose base is not defined inside the body (a container created in the body is fresh in every
 // iteration). Variables of the enclosing function are rendered by their type, fields and package-level names by name.
 func effectSignature(p *packages.Package, body *ast.BlockStmt) string {
-	return effectSignatureD(p, body, map[*ast.FuncDecl]bool{})
+	sig := effectSignatureD(p, body, map[*ast.FuncDecl]bool{})
+	if ex := loopExits(body); ex != "" {
+		if sig != "" {
+			sig += " "
+		}
+		sig += "exits=" + ex
+	}
+	return sig
+}
+
+// loopExits: the ways the body leaves the loop before the last element was visited (which elements were visited by
+// then depends on the visiting order): `break` of this loop, `return`, `goto`. A break that ends an inner loop, switch
+// or select and exits of function literals are not exits of the loop.
+func loopExits(body *ast.BlockStmt) string {
+	exits := map[string]bool{}
+	var walk func(n ast.Node, inner int)
+	walk = func(n ast.Node, inner int) {
+		if n == nil {
+			return
+		}
+		switch x := n.(type) {
+		case *ast.FuncLit:
+			return
+		case *ast.ReturnStmt:
+			exits["return"] = true
+		case *ast.BranchStmt:
+			switch x.Tok {
+			case token.BREAK:
+				if x.Label != nil || inner == 0 {
+					// a labelled break leaves the labelled statement: this loop or one around it
+					exits["break"] = true
+				}
+			case token.GOTO:
+				exits["goto"] = true
+			}
+			return
+		case *ast.ForStmt, *ast.RangeStmt, *ast.SwitchStmt, *ast.TypeSwitchStmt, *ast.SelectStmt:
+			inner++
+		}
+		ast.Inspect(n, func(m ast.Node) bool {
+			if m == n || m == nil {
+				return true
+			}
+			walk(m, inner)
+			return false
+		})
+	}
+	for _, st := range body.List {
+		walk(st, 0)
+	}
+	return strings.Join(keysOf(exits), ",")
 }
 
 func effectSignatureD(p *packages.Package, body *ast.BlockStmt, expanding map[*ast.FuncDecl]bool) string {
@@ -288,6 +338,9 @@ func effectsCovered(tabled, sig string) bool {
 				for _, w := range strings.Split(strings.TrimPrefix(part, "writes="), ",") {
 					writes[w] = true
 				}
+			case strings.HasPrefix(part, "exits="):
+				// the ways out of the loop are part of what was reasoned about, like the callees
+				calls += " " + part
 			}
 		}
 		return
